@@ -1073,3 +1073,519 @@ Proof.
 Qed.
 
 End SeqGen.
+
+(* --- the main induction --------------------------------------------- *)
+
+Lemma NoDup_app_intro : forall (A : Type) (a b : list A),
+  NoDup a -> NoDup b -> (forall x, In x a -> ~ In x b) -> NoDup (a ++ b).
+Proof.
+  intros A a b Ha. induction Ha as [|x a Hx Ha IH]; intros Hb Hd; simpl; auto.
+  constructor.
+  - rewrite in_app_iff. intros [H|H]; [contradiction|]. apply (Hd x); [left; auto|exact H].
+  - apply IH; auto. intros y Hy. apply Hd. right; auto.
+Qed.
+
+Section SeqGenMain.
+Variables (reset : bool) (stops : list nat) (arcs : list arc).
+Hypothesis Hnd : NoDup stops.
+Hypothesis Hwf : arcs_wf stops arcs.
+
+(* what a call (or a run of the loop) adds to the output: [P] delimits the subtree.
+   The last clause is the completeness part, for the current code only. *)
+Definition PostP (P : list nat -> Prop) (st st' : sg) : Prop :=
+  exists new,
+    sg_out st' = sg_out st ++ new /\ NoDup new /\
+    (forall l, In l new -> valid_order stops arcs l /\ P l) /\
+    sg_max st' = (sg_max st - Z.of_nat (length new))%Z /\ (0 <= sg_max st')%Z /\
+    (sg_max st' <> 0%Z ->
+       sg_deg st' = sg_deg st /\
+       (reset = true -> forall l, valid_order stops arcs l -> P l -> In l new)).
+
+Lemma sloop_nil : forall rec used sequence isd ds st,
+  sloop reset rec stops arcs used sequence isd [] ds st = st.
+Proof. reflexivity. Qed.
+
+Lemma sloop_cons : forall rec used sequence isd idx rest ds st,
+  sloop reset rec stops arcs used sequence isd (idx :: rest) ds st =
+  let stop := nth idx stops 0 in
+  if negb (existsb (Nat.eqb idx) used) && Nat.eqb (deg_of (sg_deg st) stop) 0 then
+    let outs := outbound arcs stop in
+    let oo := order_outs outs (sg_tape st) in
+    let ds1 := next_ds (fst oo) (if reset then None else ds) in
+    let st1 := rec (idx :: used) (sequence ++ [stop]) ds1
+                   (mkSg (sg_out st) (sg_max st) (snd oo) (dec_deg (fst oo) (sg_deg st))) in
+    if (sg_max st1 =? 0)%Z then st1
+    else
+      let st2 := mkSg (sg_out st1) (sg_max st1) (sg_tape st1) (inc_deg outs (sg_deg st1)) in
+      if isd then st2 else sloop reset rec stops arcs used sequence isd rest ds1 st2
+  else sloop reset rec stops arcs used sequence isd rest ds st.
+Proof. reflexivity. Qed.
+
+Lemma sloop_ok_cons : forall rec rec_ok used sequence isd idx rest ds st,
+  sloop_ok reset rec rec_ok stops arcs used sequence isd (idx :: rest) ds st =
+  let stop := nth idx stops 0 in
+  if negb (existsb (Nat.eqb idx) used) && Nat.eqb (deg_of (sg_deg st) stop) 0 then
+    let outs := outbound arcs stop in
+    let oo := order_outs outs (sg_tape st) in
+    let ds1 := next_ds (fst oo) (if reset then None else ds) in
+    let stin := mkSg (sg_out st) (sg_max st) (snd oo) (dec_deg (fst oo) (sg_deg st)) in
+    let st1 := rec (idx :: used) (sequence ++ [stop]) ds1 stin in
+    outs_ok outs (sg_tape st) &&
+    rec_ok (idx :: used) (sequence ++ [stop]) ds1 stin &&
+    (if (sg_max st1 =? 0)%Z then true
+     else
+       let st2 := mkSg (sg_out st1) (sg_max st1) (sg_tape st1) (inc_deg outs (sg_deg st1)) in
+       if isd then true else sloop_ok reset rec rec_ok stops arcs used sequence isd rest ds1 st2)
+  else sloop_ok reset rec rec_ok stops arcs used sequence isd rest ds st.
+Proof. reflexivity. Qed.
+
+Definition child_spec (rec : list nat -> list nat -> option nat -> sg -> sg)
+    (rec_ok : list nat -> list nat -> option nat -> sg -> bool) (n1 : nat) : Prop :=
+  forall used sequence direct st,
+    Inv0 stops arcs used sequence -> InvD reset arcs sequence direct ->
+    sg_deg st = deg_tab stops arcs sequence -> (1 <= sg_max st)%Z ->
+    rec_ok used sequence direct st = true -> length sequence = n1 ->
+    PostP (fun l => exists t, l = sequence ++ t) st (rec used sequence direct st).
+
+Lemma sloop_post : forall rec rec_ok used sequence isd,
+  child_spec rec rec_ok (S (length sequence)) ->
+  Inv0 stops arcs used sequence ->
+  forall cands, NoDup cands ->
+    (forall idx, In idx cands -> idx < length stops /\ compat arcs sequence (nth idx stops 0)) ->
+    (reset = true -> isd = true -> length cands <= 1) ->
+  forall ds st,
+    sg_deg st = deg_tab stops arcs sequence -> (1 <= sg_max st)%Z ->
+    sloop_ok reset rec rec_ok stops arcs used sequence isd cands ds st = true ->
+    PostP (fun l => exists idx t, In idx cands /\ l = sequence ++ nth idx stops 0 :: t)
+          st (sloop reset rec stops arcs used sequence isd cands ds st).
+Proof.
+  intros rec rec_ok used sequence isd Hrec Hinv.
+  induction cands as [|idx rest IH]; intros Hndc Hc Hisd ds st Hdeg Hmax Hok.
+  - rewrite sloop_nil. exists []. rewrite app_nil_r. split; auto. split; [constructor|].
+    split; [intros l []|]. simpl. split; [lia|]. split; [lia|]. intros _. split; auto.
+    intros _ l _ (idx & t & [] & _).
+  - rewrite sloop_cons. rewrite sloop_ok_cons in Hok. cbv zeta in Hok |- *.
+    set (stop := nth idx stops 0) in *.
+    pose proof Hinv as (Hn & Hi & Hu & Hp).
+    inversion Hndc as [|? ? Hidx_notin Hndrest]; subst.
+    destruct (Hc idx (or_introl eq_refl)) as [Hidx Hcompat]. fold stop in Hcompat.
+    assert (Hstop_in : In stop stops) by (apply nth_In; exact Hidx).
+    specialize (IH Hndrest (fun i Hi => Hc i (or_intror Hi))).
+    destruct (negb (existsb (Nat.eqb idx) used) && Nat.eqb (deg_of (sg_deg st) stop) 0) eqn:Ec.
+    + (* the candidate is placed *)
+      apply andb_true_iff in Ec. destruct Ec as [Eu Ed].
+      apply negb_true_iff in Eu. apply existsb_eqb_notIn in Eu. apply Nat.eqb_eq in Ed.
+      rewrite Hdeg in Ed. unfold deg_tab in Ed. rewrite deg_of_tab in Ed by exact Hstop_in.
+      assert (Hs : ~ In stop sequence) by (intro H; apply Eu, Hu; auto).
+      apply andb_true_iff in Hok. destruct Hok as [Hok Hok3].
+      apply andb_true_iff in Hok. destruct Hok as [Hok1 Hok2].
+      pose proof (order_outs_perm _ _ Hok1) as Hperm.
+      set (outs := outbound arcs stop) in *.
+      set (oo := order_outs outs (sg_tape st)) in *.
+      set (ds1 := next_ds (fst oo) (if reset then None else ds)) in *.
+      rewrite Hdeg in Hok2, Hok3 |- *.
+      rewrite (dec_deg_step stops arcs sequence stop (fst oo) Hs Hperm) in Hok2, Hok3 |- *.
+      set (stin := mkSg (sg_out st) (sg_max st) (snd oo) (deg_tab stops arcs (sequence ++ [stop]))) in *.
+      assert (H1 : PostP (fun l => exists t, l = (sequence ++ [stop]) ++ t) stin
+                         (rec (idx :: used) (sequence ++ [stop]) ds1 stin)).
+      { apply Hrec; auto.
+        - apply Inv0_step; auto.
+        - eapply InvD_step; eauto. intros ->. reflexivity.
+        - rewrite app_length. simpl. lia. }
+      set (st1 := rec (idx :: used) (sequence ++ [stop]) ds1 stin) in *.
+      destruct H1 as (new1 & Ho1 & Hnd1 & Hv1 & Hm1 & Hge1 & Hrest1).
+      simpl in Ho1, Hm1.
+      assert (Hv1' : forall l, In l new1 ->
+                valid_order stops arcs l /\
+                exists i t, In i (idx :: rest) /\ l = sequence ++ nth i stops 0 :: t).
+      { intros l Hl. destruct (Hv1 l Hl) as [Hvl (t & ->)]. split; auto.
+        exists idx, t. split; [left; auto|]. rewrite <- app_assoc. reflexivity. }
+      destruct (Z.eqb_spec (sg_max st1) 0) as [Ez|Enz].
+      * (* budget exhausted *)
+        exists new1. split; [exact Ho1|]. split; auto. split; auto. split; auto. split; auto.
+        intros Hne. contradiction.
+      * destruct (Hrest1 Enz) as [Hdeg1 Hcompl1]. simpl in Hdeg1.
+        rewrite Hdeg1 in Hok3 |- *. unfold outs in Hok3 |- *.
+        rewrite (inc_deg_step stops arcs sequence stop Hs) in Hok3 |- *.
+        set (st2 := mkSg (sg_out st1) (sg_max st1) (sg_tape st1) (deg_tab stops arcs sequence)) in *.
+        destruct isd.
+        -- exists new1. simpl. split; [exact Ho1|]. split; auto. split; auto. split; auto.
+           split; auto. intros _. split; [symmetry; exact Hdeg|].
+           intros Hr l Hvl (i & t & Hi' & ->).
+           assert (Hrest0 : rest = []).
+           { specialize (Hisd Hr eq_refl). simpl in Hisd. destruct rest; auto. simpl in Hisd. lia. }
+           subst rest. destruct Hi' as [<-|[]]. apply Hcompl1; auto.
+           exists t. rewrite <- app_assoc. reflexivity.
+        -- assert (Hmax2 : (1 <= sg_max st2)%Z) by (simpl; lia).
+           specialize (IH (fun _ (H : false = true) => False_ind _ (diff_false_true H))
+                          ds1 st2 eq_refl Hmax2 Hok3).
+           destruct IH as (new2 & Ho2 & Hnd2 & Hv2 & Hm2 & Hge2 & Hrest2).
+           simpl in Ho2, Hm2.
+           exists (new1 ++ new2). split; [rewrite Ho2, Ho1, app_assoc; reflexivity|].
+           split; [|split; [|split; [|split]]].
+           ++ apply NoDup_app_intro; auto. intros l Hl1 Hl2.
+              destruct (Hv1 l Hl1) as [_ (t1 & E1)].
+              destruct (Hv2 l Hl2) as [_ (i & t2 & Hi2 & E2)].
+              rewrite E1, <- app_assoc in E2. apply app_inv_head in E2. simpl in E2.
+              inversion E2 as [[E3 E4]]. apply Hidx_notin.
+              assert (i = idx).
+              { apply (nth_inj stops Hnd); auto. apply (Hc i). right; auto. }
+              subst i. exact Hi2.
+           ++ intros l Hl. apply in_app_or in Hl. destruct Hl as [Hl|Hl]; auto.
+              destruct (Hv2 l Hl) as [Hvl (i & t & Hi2 & ->)]. split; auto.
+              exists i, t. split; [right; auto|reflexivity].
+           ++ rewrite Hm2, Hm1, app_length, Nat2Z.inj_add. lia.
+           ++ exact Hge2.
+           ++ intros Hne. destruct (Hrest2 Hne) as [Hdeg2 Hcompl2]. simpl in Hdeg2.
+              split; [rewrite Hdeg2; symmetry; exact Hdeg|].
+              intros Hr l Hvl (i & t & [<-|Hi'] & ->); apply in_or_app.
+              ** left. apply Hcompl1; auto. exists t. rewrite <- app_assoc. reflexivity.
+              ** right. apply Hcompl2; auto. exists i, t. auto.
+    + (* the candidate is skipped: no allowed order continues with it *)
+      assert (Hisd' : reset = true -> isd = true -> length rest <= 1).
+      { intros Hr Hd. specialize (Hisd Hr Hd). simpl in Hisd. lia. }
+      specialize (IH Hisd' ds st Hdeg Hmax Hok).
+      destruct IH as (new & Ho & Hndn & Hv & Hm & Hge & Hrest).
+      exists new. split; auto. split; auto. split; [|split; [|split]]; auto.
+      * intros l Hl. destruct (Hv l Hl) as [Hvl (i & t & Hi2 & ->)]. split; auto.
+        exists i, t. split; [right; auto|reflexivity].
+      * intros Hne. destruct (Hrest Hne) as [Hdeg' Hcompl]. split; auto.
+        intros Hr l Hvl (i & t & [<-|Hi'] & E).
+        -- exfalso. fold stop in E.
+           destruct (valid_next stops arcs Hnd l sequence stop t Hvl E) as (_ & Hs & Hc0 & _).
+           apply andb_false_iff in Ec. destruct Ec as [Ec|Ec].
+           ++ apply negb_false_iff in Ec. apply existsb_eqb_In in Ec. apply Hs, Hu; auto.
+           ++ apply Nat.eqb_neq in Ec. apply Ec. rewrite Hdeg. unfold deg_tab.
+              rewrite deg_of_tab by exact Hstop_in. exact Hc0.
+        -- apply Hcompl; auto. exists i, t. auto.
+Qed.
+
+(* the candidates of a node *)
+Lemma order_facts : forall used sequence direct perm,
+  Inv0 stops arcs used sequence -> InvD reset arcs sequence direct ->
+  Permutation perm (seq 0 (length stops)) ->
+  NoDup (order_of stops direct perm) /\
+  (forall idx, In idx (order_of stops direct perm) ->
+     idx < length stops /\ compat arcs sequence (nth idx stops 0)) /\
+  (reset = true -> is_some direct = true -> length (order_of stops direct perm) <= 1) /\
+  (reset = true -> forall l s t, valid_order stops arcs l -> l = sequence ++ s :: t ->
+     exists idx, In idx (order_of stops direct perm) /\ nth idx stops 0 = s).
+Proof.
+  intros used sequence direct perm Hinv [Hd4 Hd5] Hperm.
+  assert (Hpn : NoDup perm) by (eapply Permutation_NoDup; [symmetry; exact Hperm|apply seq_NoDup]).
+  assert (Hplt : forall i, In i perm -> i < length stops).
+  { intros i Hi. eapply Permutation_in in Hi; [|exact Hperm]. apply in_seq in Hi. lia. }
+  assert (Hpin : forall i, i < length stops -> In i perm).
+  { intros i Hi. eapply Permutation_in; [symmetry; exact Hperm|]. apply in_seq. lia. }
+  assert (Hfind : forall d, In d stops ->
+            find (fun i => Nat.eqb (nth i stops 0) d) perm = None -> False).
+  { intros d Hd Hf. pose proof (find_none _ _ Hf (index_of d stops)) as Hn.
+    simpl in Hn. rewrite nth_index_of in Hn by exact Hd. rewrite Nat.eqb_refl in Hn.
+    assert (In (index_of d stops) perm) by (apply Hpin, index_of_lt_In; exact Hd).
+    specialize (Hn H). discriminate. }
+  destruct direct as [d|]; simpl.
+  - destruct (find (fun i => Nat.eqb (nth i stops 0) d) perm) as [i|] eqn:Ef.
+    + apply find_some in Ef. destruct Ef as [Hi Ei]. apply Nat.eqb_eq in Ei.
+      split; [constructor; [intros []|constructor]|]. split; [|split].
+      * intros idx [<-|[]]. split; auto. intros o d' Ha Ho Hd'.
+        specialize (Hd4 o d' Ha Ho Hd'). inversion Hd4; subst. reflexivity.
+      * intros _ _. simpl. lia.
+      * intros Hr l s t Hvl El. destruct (Hd5 Hr d eq_refl) as (o & Ha & Ho & Hlast).
+        destruct (valid_next stops arcs Hnd l sequence s t Hvl El) as (_ & _ & _ & Hnext).
+        exists i. split; [left; auto|]. rewrite Ei. eapply Hnext; eauto.
+    + split; auto. split; [|split].
+      * intros idx Hidx. split; auto. intros o d' Ha Ho Hd'.
+        specialize (Hd4 o d' Ha Ho Hd'). inversion Hd4; subst. exfalso.
+        apply (Hfind d'); auto. apply (proj1 Hwf o d' true Ha).
+      * intros Hr _. exfalso. destruct (Hd5 Hr d eq_refl) as (o & Ha & _).
+        apply (Hfind d); auto. apply (proj1 Hwf o d true Ha).
+      * intros Hr. exfalso. destruct (Hd5 Hr d eq_refl) as (o & Ha & _).
+        apply (Hfind d); auto. apply (proj1 Hwf o d true Ha).
+  - split; auto. split; [|split].
+    + intros idx Hidx. split; auto. intros o d' Ha Ho Hd'.
+      specialize (Hd4 o d' Ha Ho Hd'). discriminate.
+    + intros _ H. discriminate.
+    + intros _ l s t Hvl El.
+      destruct (valid_next stops arcs Hnd l sequence s t Hvl El) as (Hs & _).
+      exists (index_of s stops). split.
+      * apply Hpin, index_of_lt_In. exact Hs.
+      * apply nth_index_of. exact Hs.
+Qed.
+
+Lemma seqgen_ok_S : forall fuel used sequence direct st,
+  seqgen_ok reset (S fuel) stops arcs used sequence direct st =
+  if Nat.eqb (length sequence) (length stops) then true
+  else
+    let pt := get_perm (sg_tape st) (length stops) in
+    is_perm (length stops) (fst pt) &&
+    sloop_ok reset (seqgen reset fuel stops arcs) (seqgen_ok reset fuel stops arcs)
+             stops arcs used sequence (is_some direct)
+             (order_of stops direct (fst pt)) None
+             (mkSg (sg_out st) (sg_max st) (snd pt) (sg_deg st)).
+Proof. reflexivity. Qed.
+
+Lemma seqgen_post : forall fuel used sequence direct st,
+  Inv0 stops arcs used sequence -> InvD reset arcs sequence direct ->
+  sg_deg st = deg_tab stops arcs sequence -> (1 <= sg_max st)%Z ->
+  seqgen_ok reset fuel stops arcs used sequence direct st = true ->
+  length stops < fuel + length sequence ->
+  PostP (fun l => exists t, l = sequence ++ t) st
+        (seqgen reset fuel stops arcs used sequence direct st).
+Proof.
+  induction fuel as [|fuel IH]; intros used sequence direct st Hinv HinvD Hdeg Hmax Hok Hfuel.
+  - exfalso. destruct Hinv as (Hn & Hi & _).
+    pose proof (NoDup_incl_length Hn Hi). lia.
+  - rewrite seqgen_S. rewrite seqgen_ok_S in Hok.
+    destruct (Nat.eqb_spec (length sequence) (length stops)) as [El|Enl].
+    + cbv zeta. assert (E : (0 <=? sg_max st - 1)%Z = true) by (apply Z.leb_le; lia).
+      rewrite E. exists [sequence]. simpl. split; auto.
+      split; [constructor; [intros []|constructor]|]. split.
+      { intros l [<-|[]]. split.
+        - eapply Inv0_complete_valid; eauto.
+        - exists []. rewrite app_nil_r. reflexivity. }
+      split; [lia|]. split; [lia|]. intros _. split; auto.
+      intros _ l [Hperm _] (t & ->). left.
+      apply Permutation_length in Hperm. rewrite app_length in Hperm.
+      destruct t; [rewrite app_nil_r; reflexivity|simpl in Hperm; lia].
+    + cbv zeta in Hok |- *. apply andb_true_iff in Hok. destruct Hok as [Hperm Hok].
+      apply is_perm_Permutation in Hperm.
+      destruct (order_facts used sequence direct _ Hinv HinvD Hperm) as (O1 & O2 & O3 & O4).
+      assert (Hchild : child_spec (seqgen reset fuel stops arcs) (seqgen_ok reset fuel stops arcs)
+                                  (S (length sequence))).
+      { intros u s d st' Hi0 HiD Hdg Hmx Hk Hlen. apply IH; auto. lia. }
+      pose proof (sloop_post _ _ used sequence (is_some direct) Hchild Hinv _ O1 O2 O3 None
+                    (mkSg (sg_out st) (sg_max st) (snd (get_perm (sg_tape st) (length stops))) (sg_deg st))
+                    Hdeg Hmax Hok) as HP.
+      destruct HP as (new & Ho & Hndn & Hv & Hm & Hge & Hrest). simpl in Ho, Hm.
+      exists new. split; auto. split; auto. split; [|split; [|split]]; auto.
+      * intros l Hl. destruct (Hv l Hl) as [Hvl (i & t & _ & ->)]. split; auto. eauto.
+      * intros Hne. destruct (Hrest Hne) as [Hdeg' Hcompl]. simpl in Hdeg'. split; auto.
+        intros Hr l Hvl (t & El). apply Hcompl; auto.
+        destruct t as [|s t].
+        -- exfalso. rewrite app_nil_r in El. subst l. destruct Hvl as [Hp _].
+           apply Permutation_length in Hp. contradiction.
+        -- destruct (O4 Hr l s t Hvl El) as (i & Hi & Es). exists i, t. rewrite Es. auto.
+Qed.
+
+(* with an exhausted budget nothing is emitted *)
+Lemma sloop_nonpos : forall rec used sequence isd,
+  (forall u s d st, (sg_max st <= 0)%Z ->
+     sg_out (rec u s d st) = sg_out st /\ (sg_max (rec u s d st) <= sg_max st)%Z) ->
+  forall cands ds st, (sg_max st <= 0)%Z ->
+    sg_out (sloop reset rec stops arcs used sequence isd cands ds st) = sg_out st /\
+    (sg_max (sloop reset rec stops arcs used sequence isd cands ds st) <= sg_max st)%Z.
+Proof.
+  intros rec used sequence isd Hrec. induction cands as [|idx rest IH]; intros ds st Hmax.
+  - rewrite sloop_nil. split; [reflexivity|lia].
+  - rewrite sloop_cons. cbv zeta.
+    destruct (negb (existsb (Nat.eqb idx) used) && Nat.eqb (deg_of (sg_deg st) (nth idx stops 0)) 0).
+    + match goal with |- context [rec ?u ?s ?d ?x] =>
+        destruct (Hrec u s d x Hmax) as [H1 H2]; set (st1 := rec u s d x) in * end.
+      simpl in H1, H2.
+      destruct (Z.eqb_spec (sg_max st1) 0); auto.
+      destruct isd; simpl; auto.
+      match goal with |- context [sloop _ _ _ _ _ _ _ rest ?d ?x] =>
+        destruct (IH d x) as [H3 H4]; [simpl; lia|] end.
+      simpl in H3, H4. split; [congruence|lia].
+    + apply IH. exact Hmax.
+Qed.
+
+Lemma seqgen_nonpos : forall fuel used sequence direct st, (sg_max st <= 0)%Z ->
+  sg_out (seqgen reset fuel stops arcs used sequence direct st) = sg_out st /\
+  (sg_max (seqgen reset fuel stops arcs used sequence direct st) <= sg_max st)%Z.
+Proof.
+  induction fuel as [|fuel IH]; intros used sequence direct st Hmax.
+  - simpl. split; [reflexivity|lia].
+  - rewrite seqgen_S. destruct (Nat.eqb (length sequence) (length stops)).
+    + cbv zeta. assert (E : (0 <=? sg_max st - 1)%Z = false) by (apply Z.leb_gt; lia).
+      rewrite E. simpl. split; [reflexivity|lia].
+    + cbv zeta.
+      match goal with |- context [sloop _ _ _ _ ?u ?s ?i ?c ?d ?x] =>
+        destruct (sloop_nonpos (seqgen reset fuel stops arcs) u s i IH c d x) as [H1 H2];
+          [simpl; exact Hmax|] end.
+      simpl in H1, H2. auto.
+Qed.
+
+(* the whole generator *)
+Lemma generator_post : forall sample tape,
+  tape_ok_gen reset stops arcs sample tape ->
+  let out := sequence_generator_gen reset stops arcs sample tape in
+  NoDup out /\ (forall l, In l out -> valid_order stops arcs l) /\
+  (reset = true -> (Z.of_nat (length (all_orders stops arcs)) <= sample)%Z ->
+   forall l, valid_order stops arcs l -> In l out).
+Proof.
+  intros sample tape Hok. unfold sequence_generator_gen. unfold tape_ok_gen in Hok. cbv zeta.
+  set (st0 := mkSg [] sample tape (initial_deg stops arcs)) in *.
+  set (stf := seqgen reset (S (length stops)) stops arcs [] [] None st0).
+  destruct (Z.le_gt_cases sample 0) as [Hle|Hgt].
+  - destruct (seqgen_nonpos (S (length stops)) [] [] None st0 Hle) as [E _].
+    fold stf in E. rewrite E. change (sg_out st0) with (@nil (list nat)).
+    split; [constructor|]. split; [intros l []|].
+    intros _ Hlen l Hvl. apply all_orders_spec in Hvl.
+    destruct (all_orders stops arcs); [destruct Hvl|simpl in Hlen; lia].
+  - assert (HP : PostP (fun l => exists t, l = [] ++ t) st0 stf).
+    { apply seqgen_post; auto.
+      - apply Inv0_init.
+      - apply InvD_init.
+      - apply initial_deg_tab.
+      - change (1 <= sample)%Z. lia.
+      - simpl. lia. }
+    destruct HP as (new & Ho & Hndn & Hv & Hm & Hge & Hrest).
+    change (sg_out st0) with (@nil (list nat)) in Ho. change (sg_max st0) with sample in Hm.
+    rewrite app_nil_l in Ho.
+    rewrite Ho. split; auto. split; [intros l Hl; apply (Hv l Hl)|].
+    intros Hr Hlen l Hvl.
+    destruct (Z.eq_dec (sg_max stf) 0) as [Ez|Enz].
+    + assert (Hincl : incl new (all_orders stops arcs)).
+      { intros x Hx. apply all_orders_spec. apply (Hv x Hx). }
+      assert (Hlen' : length (all_orders stops arcs) <= length new) by lia.
+      apply (NoDup_length_incl Hndn Hlen' Hincl). apply all_orders_spec. exact Hvl.
+    + destruct (Hrest Enz) as [_ Hcompl]. apply Hcompl; auto. exists l. reflexivity.
+Qed.
+
+End SeqGenMain.
+
+(* --- 4. soundness, for every valid tape and both versions of the code -- *)
+
+Lemma C10_sequence_generator_sound_proof : forall reset stops arcs sample tape l,
+  NoDup stops -> arcs_wf stops arcs -> tape_ok_gen reset stops arcs sample tape ->
+  In l (sequence_generator_gen reset stops arcs sample tape) -> In l (all_orders stops arcs).
+Proof.
+  intros reset stops arcs sample tape l Hnd Hwf Hok Hin.
+  destruct (generator_post reset stops arcs Hnd Hwf sample tape Hok) as (_ & Hs & _).
+  apply all_orders_spec. apply Hs. exact Hin.
+Qed.
+
+(* --- 5. completeness and uniqueness, current code ----------------------- *)
+
+Lemma C10_sequence_generator_complete_proof : forall stops arcs sample tape,
+  NoDup stops -> arcs_wf stops arcs -> tape_ok stops arcs sample tape ->
+  (Z.of_nat (length (all_orders stops arcs)) <= sample)%Z ->
+  forall l, In l (all_orders stops arcs) -> In l (sequence_generator stops arcs sample tape).
+Proof.
+  intros stops arcs sample tape Hnd Hwf Hok Hlen l Hl.
+  destruct (generator_post true stops arcs Hnd Hwf sample tape Hok) as (_ & _ & Hc).
+  apply Hc; auto. apply all_orders_spec. exact Hl.
+Qed.
+
+Lemma C10_sequence_generator_nodup_proof : forall reset stops arcs sample tape,
+  NoDup stops -> arcs_wf stops arcs -> tape_ok_gen reset stops arcs sample tape ->
+  NoDup (sequence_generator_gen reset stops arcs sample tape).
+Proof.
+  intros reset stops arcs sample tape Hnd Hwf Hok.
+  destruct (generator_post reset stops arcs Hnd Hwf sample tape Hok) as (H & _). exact H.
+Qed.
+
+Lemma C10_sequence_generator_exact_proof : forall stops arcs sample tape,
+  NoDup stops -> arcs_wf stops arcs -> tape_ok stops arcs sample tape ->
+  (Z.of_nat (length (all_orders stops arcs)) <= sample)%Z ->
+  Permutation (sequence_generator stops arcs sample tape) (all_orders stops arcs).
+Proof.
+  intros stops arcs sample tape Hnd Hwf Hok Hlen. apply NoDup_Permutation.
+  - apply (C10_sequence_generator_nodup_proof true); auto.
+  - apply all_orders_nodup. exact Hnd.
+  - intros l. split.
+    + apply (C10_sequence_generator_sound_proof true); auto.
+    + apply C10_sequence_generator_complete_proof; auto.
+Qed.
+
+(* --- the hypotheses are not vacuous ---------------------------------- *)
+
+(* the exhausted tape (rand.Perm answers the identity) is valid for every instance *)
+Lemma is_perm_seq : forall n, is_perm n (seq 0 n) = true.
+Proof.
+  intros n. unfold is_perm. rewrite seq_length, Nat.eqb_refl. simpl.
+  apply forallb_forall. intros i Hi. apply existsb_eqb_In. exact Hi.
+Qed.
+
+Lemma order_outs_nil_tape : forall outs,
+  snd (order_outs outs []) = [] /\ outs_ok outs [] = true.
+Proof.
+  intros [|a [|b r]].
+  - split; reflexivity.
+  - split; reflexivity.
+  - split; [reflexivity|]. apply (is_perm_seq (S (S (length r)))).
+Qed.
+
+Section NilTape.
+Variables (reset : bool) (stops : list nat) (arcs : list arc).
+
+Lemma sloop_nil_tape : forall rec rec_ok used sequence isd,
+  (forall u s d st, sg_tape st = [] -> sg_tape (rec u s d st) = [] /\ rec_ok u s d st = true) ->
+  forall cands ds st, sg_tape st = [] ->
+    sg_tape (sloop reset rec stops arcs used sequence isd cands ds st) = [] /\
+    sloop_ok reset rec rec_ok stops arcs used sequence isd cands ds st = true.
+Proof.
+  intros rec rec_ok used sequence isd Hrec. induction cands as [|idx rest IH]; intros ds st Ht.
+  - rewrite sloop_nil. auto.
+  - rewrite sloop_cons, sloop_ok_cons. cbv zeta.
+    destruct (negb (existsb (Nat.eqb idx) used) && Nat.eqb (deg_of (sg_deg st) (nth idx stops 0)) 0);
+      [|apply IH; exact Ht].
+    rewrite Ht. destruct (order_outs_nil_tape (outbound arcs (nth idx stops 0))) as [E1 E2].
+    rewrite E2.
+    match goal with |- context [rec ?u ?s ?d ?x] =>
+      destruct (Hrec u s d x) as [H1 H2]; [simpl; exact E1|]; rewrite H2;
+      set (st1 := rec u s d x) in * end.
+    simpl andb.
+    destruct (Z.eqb_spec (sg_max st1) 0); auto.
+    destruct isd; auto.
+Qed.
+
+Lemma seqgen_nil_tape : forall fuel used sequence direct st, sg_tape st = [] ->
+  sg_tape (seqgen reset fuel stops arcs used sequence direct st) = [] /\
+  seqgen_ok reset fuel stops arcs used sequence direct st = true.
+Proof.
+  induction fuel as [|fuel IH]; intros used sequence direct st Ht.
+  - simpl. auto.
+  - rewrite seqgen_S, seqgen_ok_S. destruct (Nat.eqb (length sequence) (length stops)).
+    + cbv zeta. destruct (0 <=? sg_max st - 1)%Z; simpl; auto.
+    + cbv zeta. rewrite Ht. simpl get_perm. simpl fst. simpl snd. rewrite is_perm_seq. simpl andb.
+      apply sloop_nil_tape; auto.
+Qed.
+
+Lemma tape_ok_nil : forall sample, tape_ok_gen reset stops arcs sample [].
+Proof. intros sample. unfold tape_ok_gen. apply seqgen_nil_tape. reflexivity. Qed.
+
+End NilTape.
+
+Example sampler_ex :
+  let stops := [0;1;2;3] in let arcs := [(0,1,true); (2,3,false)] in
+  let tape := [[2;0;3;1]; [3;2;1;0]; []] in
+  tape_ok stops arcs 24 tape /\ arcs_wf stops arcs /\
+  sequence_generator stops arcs 24 tape = [[2;3;0;1]; [2;0;1;3]; [0;1;2;3]] /\
+  all_orders stops arcs = [[0;1;2;3]; [2;0;1;3]; [2;3;0;1]] /\
+  (* a budget below the number of orders truncates the enumeration *)
+  sequence_generator stops arcs 2 tape = [[2;3;0;1]; [2;0;1;3]].
+Proof.
+  split; [vm_compute; reflexivity|]. split.
+  - split.
+    + intros o d dir [H|[H|[]]]; inversion H; subst; simpl; auto 10.
+    + intros o d1 d2 [H1|[H1|[]]] [H2|[H2|[]]]; inversion H1; inversion H2; subst; auto.
+  - vm_compute. auto.
+Qed.
+
+(* why arcs_wf asks for at most one direct successor: IsAllowed rejects every order,
+   the generator still yields one *)
+Example two_direct_successors_ex :
+  let stops := [0;1;2] in let arcs := [(0,1,true); (0,2,true)] in
+  all_orders stops arcs = [] /\ sequence_generator stops arcs 24 [] = [[0;2;1]] /\
+  tape_ok stops arcs 24 [].
+Proof. vm_compute. auto. Qed.
+
+(* why soundness needs valid tapes *)
+Lemma C10_sequence_generator_garbage_tape_refuted_proof :
+  exists stops arcs sample tape l,
+    NoDup stops /\ arcs_wf_strict stops arcs /\
+    In l (sequence_generator stops arcs sample tape) /\ ~ In l (all_orders stops arcs).
+Proof.
+  exists [0;1;2], [(0,1,true)], 24%Z, [[0;1;2]; [2]; []; [1]], [0;2;1].
+  split; [|split; [|split]].
+  - repeat constructor; simpl; intuition discriminate.
+  - split; [split|split].
+    + intros o d dir [H|[]]; inversion H; subst; simpl; auto.
+    + intros o d1 d2 [H1|[]] [H2|[]]; inversion H1; inversion H2; subst; auto.
+    + intros o1 o2 d [H1|[]] [H2|[]]; inversion H1; inversion H2; subst; auto.
+    + exists [0;1;2]. vm_compute. auto.
+  - vm_compute. auto.
+  - vm_compute. intros [H|[H|[]]]; discriminate.
+Qed.
